@@ -77,7 +77,24 @@ def oracle(case):
                 v.append({"what": f"window construction {c.get('name')}: g_glshwi={i['g_glshwi']} but the user value is {gs}", "key": {"class": "g_glshwi-user"}})
         elif abs(i["g_glshwi"] - i["g_glwi"]) > 1e-6:
             v.append({"what": f"window construction {c.get('name')}: g_glshwi={i['g_glshwi']} differs from the unshaded factor {i['g_glwi']}", "key": {"class": "g_glshwi-fallback"}})
-    return v[:3]
+    v = v[:3]
+    # "the documented defaults are what downstream indicators use": when a window in the scope of K / q_sol;jul has a construction
+    # without U-value (or none at all), the K and q_sol;jul figures must be the ones their definitions give with 5.7 and 0.77
+    cons_without_u = {c["id"] for c in m.wincons_l if pc.get(c["id"], {}).get("u_value") is None}
+    known = {c["id"] for c in m.wincons_l}
+    if any(w.get("cons") in cons_without_u or w.get("cons") not in known for w in case["model"].get("windows", [])):
+        _stats["models_with_defaulted_windows"] += 1
+        import c08
+        import c10
+        for x in c08.oracle(case):
+            if x["key"].get("class") in ("k-value", "k-category") and x["key"].get("cat", "windows") == "windows":
+                v.append({"what": "a window without U-value is in the model: " + x["what"], "key": dict(x["key"], downstream="K")})
+                break
+        for x in c10.oracle(case):
+            if x["key"].get("class", "").startswith("qsol"):
+                v.append({"what": "a window without construction data is in the model: " + x["what"], "key": dict(x["key"], downstream="q_soljul")})
+                break
+    return v[:4]
 
 
 def nontrivial(case):
